@@ -338,11 +338,19 @@ func (ft *FT) call(st *State, guard Term, c *ssa.CallCommon, preArgs []Term, ins
 				fname := fmt.Sprintf("uf!%s#%d", name, i)
 				ft.d.fun(fname, sorts, ft.d.sortOf(rt))
 				r := app(q(fname), args...)
+				if sl, ok := rt.Underlying().(*types.Slice); ok {
+					lenf, rowf := ft.functionalUFs(name, sorts, sl.Elem())
+					base := ft.allocRef(st)
+					k := ft.elemKey(sl.Elem())
+					ft.set(st, k, app("store", ft.get(st, k), base, app(rowf, args...)))
+					ln := app(lenf, args...)
+					ft.assume("true", and(app("<=", "0", ln), app("<=", ln, "4611686018427387904")))
+					rs = append(rs, ft.nameTerm("call", "Slice", app("mk-slice", base, "0", ln, ln)))
+					continue
+				}
 				rn := ft.fresh("call", ft.d.sortOf(rt))
 				ft.asserts = append(ft.asserts, "(assert "+eq(rn, r)+")")
-				if ft.d.sortOf(rt) != "Slice" {
-					ft.assume("true", ft.typeInv(rn, rt, st))
-				}
+				ft.assume("true", ft.typeInv(rn, rt, st))
 				rs = append(rs, rn)
 			}
 			return rs
@@ -691,6 +699,9 @@ func (ft *FT) contractCall(st *State, guard Term, con *FuncContract, name string
 			}
 		}
 	}
+	if con.Functional {
+		ft.functionalFacts(st, name, sig, args, rs)
+	}
 	for _, e := range con.Ensures {
 		t, err := post.boolExpr(e.Expr)
 		if err != nil {
@@ -700,6 +711,47 @@ func (ft *FT) contractCall(st *State, guard Term, con *FuncContract, name string
 		ft.assume(guard, t)
 	}
 	return rs
+}
+
+// functionalFacts: the results of a deterministic function of scalar arguments are named by uninterpreted functions.
+func (ft *FT) functionalFacts(st *State, name string, sig *types.Signature, args []Term, rs []Term) {
+	var sorts []Sort
+	ps := sig.Params()
+	for i := 0; i < ps.Len(); i++ {
+		s := ft.d.sortOf(ps.At(i).Type())
+		if s != "Int" && s != "Bool" && s != "Str" && s != "F64" {
+			ft.errf("functional %s: non-scalar parameter", name)
+			return
+		}
+		sorts = append(sorts, s)
+	}
+	if sig.Recv() != nil {
+		ft.errf("functional %s: methods not supported", name)
+		return
+	}
+	for i, r := range rs {
+		rt := sig.Results().At(i).Type()
+		if sl, ok := rt.Underlying().(*types.Slice); ok {
+			lenf, rowf := ft.functionalUFs(name, sorts, sl.Elem())
+			k := ft.elemKey(sl.Elem())
+			ft.assume("true", eq(app("sl-len", r), app(lenf, args...)))
+			row := app(rowf, args...)
+			ft.assume("true", forall([][2]string{{"i", "Int"}}, "(! "+implies(and(app("<=", "0", "i"), app("<", "i", app("sl-len", r))),
+				eq(app(ft.atFun(k), ft.get(st, k), r, "i"), app("select", row, "i")))+" :pattern ((select "+row+" i)) :pattern ("+app(ft.atFun(k), ft.get(st, k), r, "i")+"))"))
+			continue
+		}
+		s := ft.d.sortOf(rt)
+		if s != "Int" && s != "Bool" && s != "Str" && s != "F64" {
+			continue
+		}
+		fname := fmt.Sprintf("uf!%s#%d", name, i)
+		if len(sorts) == 0 {
+			ft.d.cnst(fname, s)
+		} else {
+			ft.d.fun(fname, sorts, s)
+		}
+		ft.assume("true", eq(r, app(q(fname), args...)))
+	}
 }
 
 func isErrorType(t types.Type) bool {
